@@ -20,7 +20,7 @@ func init() {
 			"must be an error for KeepService.Index, KeepService.IndexMount and KeepClient.GetIndex, k=len(F) must give exactly the entries (exhaustive over k for each F); " +
 			"server side: real handleIndex over Directory volumes one of which cannot be listed (regular file / dangling symlink as block directory within the requested prefix, removed root): " +
 			"response must lack the blank-line terminator and all three readers must reject it; distinct = (reader pkg, n class, framing, where the cut falls) resp. (route, #volumes, failure kind, position of the failing volume, prefix length). " +
-			"(c) case = scenario (2-3 stub keepstores x 1-2 mounts, over-replicated + under-replicated + garbage blocks, 4-9 collections with ties, page size 1-3); a fault-free Balancer.Run (commit on) numbers its M requests " +
+			"(c) case = scenario (2-3 stub keepstores x 1-2 mounts, over-replicated + under-replicated + garbage blocks, 4-8 collections with ties, page size 1-3); a fault-free Balancer.Run (commit on) numbers its M requests " +
 			"(identified by server+method+path+query+occurrence); then each request x {http500, reset, truncated, malformed} (+ empty list as first page) is failed once; judged for index fetches and GET collections (pages and counts): " +
 			"no PUT /trash or /pull with a non-empty list reaches any stub and Run returns an error; other request types recorded only; distinct = (request type, mode, outcome, commit)",
 		Assume: []string{
